@@ -143,7 +143,7 @@ Proof.
     { cbn [N.size]. rewrite !positive_N_nat. cbn [Pos.size]. rewrite Pos2Nat.inj_succ.
       cbn [N.size] in Hq. rewrite positive_N_nat in Hq. lia. }
     rewrite E. cbn [bits_lsb_first follow walk].
-    assert (E2 : Npos q~1 / 2 = Npos q) by (rewrite <- N.div2_div; reflexivity). rewrite E2.
+    change (N.div2 (Npos q~1)) with (Npos q).
     change (N.odd (Npos q~1)) with true. cbv iota.
     destruct t as [b|l r]; [reflexivity|]. rewrite IH. unfold TRAVERSE_COST_PER_BIT.
     destruct (walk q r) as [v|]; [|reflexivity]. apply ok2; [|reflexivity].
@@ -155,7 +155,7 @@ Proof.
     { cbn [N.size]. rewrite !positive_N_nat. cbn [Pos.size]. rewrite Pos2Nat.inj_succ.
       cbn [N.size] in Hq. rewrite positive_N_nat in Hq. lia. }
     rewrite E. cbn [bits_lsb_first follow walk].
-    assert (E2 : Npos q~0 / 2 = Npos q) by (rewrite <- N.div2_div; reflexivity). rewrite E2.
+    change (N.div2 (Npos q~0)) with (Npos q).
     change (N.odd (Npos q~0)) with false. cbv iota.
     destruct t as [b|l r]; [reflexivity|]. rewrite IH. unfold TRAVERSE_COST_PER_BIT.
     destruct (walk q l) as [v|]; [|reflexivity]. apply ok2; [|reflexivity].
